@@ -167,8 +167,10 @@ structure St where
   parked : List (Nat × Nat × Snap.LazyRead × Option RangeResp × Db) := []
   /-- pinned snapshot values (PrepareSnapshot) -/
   pins : List (Nat × Db) := []
-  /-- rpath mode: the log index of the last entry applied where consensus reads are answered -/
+  /-- rpath mode: the log index of the last entry applied where consensus reads are answered, and
+  the result of that entry -/
   lastCommitted : Nat := 0
+  lastResult : Option Result := none
 
 def St.rep (st : St) (i : Nat) : Option Snap.Rep := (st.reps.find? (·.1 == i)).map (·.2)
 def St.putRep (st : St) (i : Nat) (r : Snap.Rep) : St := { st with reps := (i, r) :: st.reps.filter (·.1 != i) }
@@ -278,15 +280,22 @@ def step (st : St) (toks : List String) : St × String :=
     match i.toNat?, pEntry rest with
     | some i, some (e, []) => match st.get i with
       | some db => match update db [e] with
-        | .ok (db', _, _) =>
+        | .ok (db', rs, _) =>
           let st := st.set i db'
-          (if i == 0 then { st with lastCommitted := e.index } else st, "ok")
+          (if i == 0 then { st with lastCommitted := e.index, lastResult := rs.head? } else st, "ok")
         | .error err => (st, errStr err)
       | none => bad
     | _, _ => bad
-  | ["acked", _] =>
-    -- an acknowledged put / delete / transaction reports the log index of its entry
-    (st, s!"rev {st.lastCommitted}")
+  | ["acked", what] =>
+    -- an acknowledged put / delete / transaction reports the log index of its entry, and the API
+    -- response is built from the apply result (table.go Put / Delete / Txn)
+    let body := match st.lastResult.bind (fun (r : Result) => r.data) with
+      | some (_, rs) =>
+        if what == "txn" then
+          s!"{b2s ((st.lastResult.map (fun (r : Result) => r.value)).getD 0 == resultSuccess)} {respsStr rs}"
+        else (rs.head?.map respStr).getD "r?"
+      | none => "r?"
+    (st, s!"rev {st.lastCommitted} {body}")
   | "rread" :: kind :: lin :: rest =>
     -- which state answers: the routing of table.go (ReadPath.path); instance 0 has everything
     -- committed, instance 1 is the lagging local replica
